@@ -222,6 +222,21 @@ def build_text_cases(r, nprog, nnoise):
   return cases, checks, feats
 
 
+def tree_diff(a, b, path=''):
+  """Paths where two JSON trees differ: [(path, value in a, value in b)]."""
+  if isinstance(a, dict) and isinstance(b, dict):
+    out = []
+    for k in sorted(set(a) | set(b)):
+      out += tree_diff(a.get(k), b.get(k), '%s/%s' % (path, k))
+    return out
+  if isinstance(a, list) and isinstance(b, list) and len(a) == len(b):
+    out = []
+    for i, (x, y) in enumerate(zip(a, b)):
+      out += tree_diff(x, y, '%s/%d' % (path, i))
+    return out
+  return [] if a == b else [(path, str(a)[:160], str(b)[:160])]
+
+
 def judge(check, rb, rv):
   """rb, rv: results of one parser for base and variant.  Returns None or a description of the violation."""
   if rb['status'] != 'ok':
@@ -345,6 +360,23 @@ def run(tier, replay=None):
         rep.violation('crash:%s:%s' % (m, common.short_hash(text_of[cid])),
                       {'base': text_of[cid], 'variant': text_of[cid], 'check': {'kind': 'crash'}, 'parser': m,
                        'what': x.get('msg')})
+  # the texts attached to the nodes (full_text, expression_heritage) are literal source text, so they are the same
+  # texts under both parsers whenever the trees are the same
+  stats['span_texts_compared'] = 0
+  if len(modes) == 2:
+    for cid, rr in res.items():
+      a, b = rr.get('PY', {}), rr.get('CPP', {})
+      if a.get('status') == 'ok' and b.get('status') == 'ok' and a['h_mask'] == b['h_mask']:
+        stats['span_texts_compared'] += 1
+        if a['h_full'] != b['h_full'] and ('span-text', 'CPP') not in reported:
+          reported.add(('span-text', 'CPP'))
+          found += 1
+          full = parsers.parse_all([{'id': 1, 'text': text_of[cid]}], modes=modes, workers=1, full=True)[1]
+          diffs = tree_diff(full['PY'].get('tree'), full['CPP'].get('tree'))[:4]
+          rep.violation('span-text:parsers-differ', {
+              'base': text_of[cid], 'variant': text_of[cid], 'check': {'kind': 'span-text'}, 'differences': diffs,
+              'what': 'the same tree carries different full_text / expression_heritage texts under the Python and the C++ '
+                      'parser: one of them is not the literal source text of the node'})
   per_key = {}
   for c in checks:
     stats['by_kind'][c['kind']] = stats['by_kind'].get(c['kind'], 0) + 1
